@@ -45,7 +45,7 @@ CLAIMED = {
               'are exactly the first `rownumber` rows of the result (in order, none twice, none skipped), rowcount stays the '
               'result size, exhaustion is signalled by None / [] exactly when all rows were delivered, a new execute resets, '
               '-1/None before execute; executemany leaves the state of the last execute and nothing for no parameter set '
-              '(`C10_executemany`); several cursors do not influence each other (`C10_frame`); an iterator kept across other calls delivers the cursor's next row at the time of each next() and, once ended, stays ended (`C10_held_iterator`, `_ended`, `_fresh`); Column is a 7-item sequence with '
+              '(`C10_executemany`); several cursors do not influence each other (`C10_frame`); an iterator kept across other calls delivers the next row of the cursor at the time of each next() and, once ended, stays ended (`C10_held_iterator`, `_ended`, `_fresh`); Column is a 7-item sequence with '
               'Python index/slice laws. Tied to the code by exhaustive '
               'short call sequences and random long ones compared call by call (return value, rowcount, rownumber, description), '
               'with sqlite3 as a second opinion.'),
